@@ -5,6 +5,10 @@ package websockets
 import (
 	"encoding/json"
 	"fmt"
+	"net"
+	"net/http"
+	"net/http/httptest"
+	"strings"
 	"sync"
 	"testing"
 	"time"
@@ -344,4 +348,111 @@ func TestVerifC12Shapes(t *testing.T) {
 		}
 	}
 	out.emit(map[string]interface{}{"kind": "shapes-survived"})
+}
+
+// TestVerifC12Deaf: closing a session closes the backend websocket also when the backend does not cooperate: it ignores
+// close frames, or never reads at all (push-only stream), or has a backlog of unpolled messages.  "Closed" is judged at the
+// backend's socket: the agent's end must be gone within 3 s of the close call.
+func TestVerifC12Deaf(t *testing.T) {
+	out := verifOpenOut(t)
+	defer out.close()
+	up := websocket.Upgrader{}
+	type verdict struct {
+		closedByAgent bool
+		how           string
+	}
+	for _, mode := range []string{"cooperative", "ignores-close-frames", "push-only-never-reads", "backlog-of-unpolled-messages"} {
+		closeCalled := make(chan struct{})
+		verd := make(chan verdict, 1)
+		srv := httptest.NewServer(http.HandlerFunc(func(w http.ResponseWriter, r *http.Request) {
+			c, err := up.Upgrade(w, r, nil)
+			if err != nil {
+				return
+			}
+			defer c.Close()
+			raw := c.UnderlyingConn()
+			switch mode {
+			case "cooperative":
+				for {
+					if _, _, err := c.ReadMessage(); err != nil {
+						verd <- verdict{true, "read ended: " + err.Error()}
+						return
+					}
+				}
+			case "ignores-close-frames":
+				c.SetCloseHandler(func(int, string) error { return nil }) // no close frame is sent back
+				for {
+					if _, _, err := c.ReadMessage(); err != nil {
+						break
+					}
+				}
+				// the close frame has arrived and is ignored; the socket itself must now be closed by the agent
+				raw.SetReadDeadline(time.Now().Add(3 * time.Second))
+				buf := make([]byte, 64)
+				for {
+					if _, err := raw.Read(buf); err != nil {
+						ne, isNet := err.(net.Error)
+						verd <- verdict{!(isNet && ne.Timeout()), "socket read: " + err.Error()}
+						return
+					}
+				}
+			default:
+				// never reads; pushes a message now and then (a backlog beyond the shim's 10-slot queue in the last mode)
+				n := 0
+				if mode == "backlog-of-unpolled-messages" {
+					for ; n < 40; n++ {
+						c.WriteMessage(websocket.TextMessage, []byte(fmt.Sprintf("push-%d", n)))
+					}
+				}
+				var deadline time.Time
+				for {
+					select {
+					case <-closeCalled:
+						if deadline.IsZero() {
+							deadline = time.Now().Add(3 * time.Second)
+						}
+					default:
+					}
+					if !deadline.IsZero() && time.Now().After(deadline) {
+						verd <- verdict{false, "writes still succeed 3 s after the close call"}
+						return
+					}
+					raw.SetWriteDeadline(time.Now().Add(time.Second))
+					if err := c.WriteMessage(websocket.TextMessage, []byte(fmt.Sprintf("push-%d", n))); err != nil {
+						select {
+						case <-closeCalled:
+							ne, isNet := err.(net.Error)
+							_, _ = ne, isNet
+							verd <- verdict{true, "write failed: " + err.Error()}
+						default:
+							verd <- verdict{false, "write failed before the close call: " + err.Error()}
+						}
+						return
+					}
+					n++
+					time.Sleep(100 * time.Millisecond)
+				}
+			}
+		}))
+		shim := newVerifShim(strings.TrimPrefix(srv.URL, "http://"), false)
+		r, id := shim.open("ws://ignored/ws", "1")
+		res := map[string]interface{}{"kind": "deaf", "backend": mode, "open_status": r.Status}
+		if r.Status == 200 {
+			time.Sleep(150 * time.Millisecond)
+			cr := shim.call("close", verifSessionBody(id), nil, 10*time.Second)
+			close(closeCalled)
+			res["close_status"] = cr.Status
+			select {
+			case v := <-verd:
+				res["backend_socket_closed"] = v.closedByAgent
+				res["backend_saw"] = v.how
+			case <-time.After(8 * time.Second):
+				res["backend_socket_closed"] = false
+				res["backend_saw"] = "no verdict within 8 s"
+			}
+		}
+		out.emit(res)
+		srv.CloseClientConnections()
+		srv.Close()
+	}
 }
